@@ -588,3 +588,154 @@ Proof.
   - unfold tojson_str. apply postprocess_preserves_json_proof. apply quote_is_literal_proof. exact Hs.
   - intros x Hx. apply (tojson_html_safe_proof _ _ Hx).
 Qed.
+
+(* ================================================================================== *)
+(* 4. re-entrancy of the handle mechanism                                               *)
+(* ================================================================================== *)
+Scheme node_mut := Induction for node Sort Prop
+  with nodes_mut := Induction for nodes Sort Prop.
+
+(* under the flag, an embedded value comes back as itself and the flag stays set *)
+Lemma ser_value_flagged : forall v st, flag st = true ->
+  fst (ser_value v st) = v /\ flag (snd (ser_value v st)) = true.
+Proof.
+  intros v st Hf. unfold ser_value. rewrite Hf.
+  pose proof (handles_identity_proof (last st) (reg st) v) as H.
+  destruct (embed (last st) (reg st) v) as [v' [h r2]]. cbn [fst snd flag] in *. split; [exact H | reflexivity].
+Qed.
+
+(* unfolding equations (the local definitions of ser_node are transform / convert) *)
+Lemma ser_node_nvar : forall y st, ser_node (NNVar y) st =
+  match transform y st with
+  | (ROk v, st') => (ROk (VMap [(variant_key, v)]), st') | (RErr, st') => (RErr, st') | (RPanic, st') => (RPanic, st')
+  end.
+Proof. reflexivity. Qed.
+Lemma ser_node_some : forall y st, ser_node (NSome y) st = transform y st.
+Proof. reflexivity. Qed.
+Lemma ser_node_nested : forall y st, ser_node (NNested y) st =
+  match convert y st with
+  | (ROk v, st') => let '(v', st'') := ser_value v st' in (ROk v', st'')
+  | (RErr, st') => (RErr, st')
+  | (RPanic, st') => (RPanic, st')
+  end.
+Proof. reflexivity. Qed.
+Lemma ser_node_drop : forall y st, ser_node (NNestedDrop y) st =
+  match convert y st with (ROk _, st') => (ROk VNone, st') | (RErr, st') => (RErr, st') | (RPanic, st') => (RPanic, st') end.
+Proof. reflexivity. Qed.
+Lemma ser_node_catch : forall y st, ser_node (NNestedCatch y) st =
+  match convert y st with
+  | (ROk v, st') => let '(v', st'') := ser_value v st' in (ROk v', st'')
+  | (RErr, st') => (ROk VNone, st')
+  | (RPanic, st') => (ROk VNone, st')
+  end.
+Proof. reflexivity. Qed.
+Lemma ser_node_thread : forall y st, ser_node (NThread y) st =
+  match fst (convert y fresh_thread) with
+  | ROk v => let '(v', st') := ser_value v st in (ROk v', st')
+  | RErr => (ROk VNone, st)
+  | RPanic => (ROk VNone, st)
+  end.
+Proof. reflexivity. Qed.
+Lemma ser_nodes_cons : forall y r st, ser_nodes (NCons y r) st =
+  match ser_node y st with
+  | (RPanic, st') => (RPanic, st')
+  | (ROk v, st') =>
+      match ser_nodes r st' with
+      | (ROk vs, st'') => (ROk (v :: vs), st'')
+      | (RErr, st'') => (RErr, st'')
+      | (RPanic, st'') => (RPanic, st'')
+      end
+  | (RErr, st') =>
+      match ser_nodes r st' with
+      | (ROk vs, st'') => (ROk (VInvalid :: vs), st'')
+      | (RErr, st'') => (RErr, st'')
+      | (RPanic, st'') => (RPanic, st'')
+      end
+  end.
+Proof. reflexivity. Qed.
+
+Definition Good (x : node) : Prop :=
+  forall st, flag st = true -> fst (ser_node x st) = ideal x /\ flag (snd (ser_node x st)) = true.
+Definition Goods (l : nodes) : Prop :=
+  forall st, flag st = true -> fst (ser_nodes l st) = ideals l /\ flag (snd (ser_nodes l st)) = true.
+
+Lemma transform_good : forall y, Good y -> forall st, flag st = true ->
+  fst (transform y st) = tr (ideal y) /\ flag (snd (transform y st)) = true.
+Proof.
+  intros y H st Hf. destruct (H st Hf) as [H1 H2]. unfold transform.
+  destruct (ser_node y st) as [r st']. cbn [fst snd] in *. subst r.
+  destruct (ideal y); cbn [tr fst snd]; split; auto.
+Qed.
+
+(* the guard: whatever the outcome (value, invalid value, unwinding) the flag is what it was *)
+Lemma convert_good : forall y, Good y -> forall st,
+  fst (convert y st) = tr (ideal y) /\ flag (snd (convert y st)) = flag st.
+Proof.
+  intros y H st. unfold convert.
+  destruct (transform_good y H (set_flag true st) eq_refl) as [H1 H2].
+  destruct (transform y (set_flag true st)) as [r st']. cbn [fst snd] in *. split; [exact H1|].
+  destruct (flag st); [exact H2 | reflexivity].
+Qed.
+
+Lemma compound_good : forall l (f : list value -> value), Goods l -> forall st, flag st = true ->
+  let r := match ser_nodes l st with
+           | (ROk vs, st') => (ROk (f vs), st') | (RErr, st') => (RErr, st') | (RPanic, st') => (RPanic, st')
+           end in
+  fst r = match ideals l with ROk vs => ROk (f vs) | RErr => RErr | RPanic => RPanic end /\ flag (snd r) = true.
+Proof.
+  intros l f H st Hf. destruct (H st Hf) as [H1 H2].
+  destruct (ser_nodes l st) as [r st']. cbn [fst snd] in *. subst r.
+  destruct (ideals l); cbn [fst snd]; split; auto.
+Qed.
+
+Theorem reentrancy_all : forall x, Good x.
+Proof.
+  apply (node_mut Good Goods); unfold Good, Goods; intros.
+  - split; [reflexivity | exact H].
+  - (* NEmb *) cbn [ser_node ideal]. destruct (ser_value_flagged v st H) as [H1 H2].
+    destruct (ser_value v st) as [v' st']. cbn [fst snd] in *. subst. split; [reflexivity | exact H2].
+  - (* NProbe *) cbn [ser_node ideal fst snd]. split; [rewrite H; reflexivity | exact H].
+  - exact (compound_good l (fun vs => VSeq false vs) H st H0).
+  - exact (compound_good l (fun vs => VSeq true vs) H st H0).
+  - exact (compound_good l (fun vs => VMap (with_keys vs)) H st H0).
+  - exact (compound_good l (fun vs => VMap (with_keys vs)) H st H0).
+  - (* NNVar *) rewrite ser_node_nvar. cbn [ideal]. destruct (transform_good x H st H0) as [H1 H2].
+    destruct (transform x st) as [r st']. cbn [fst snd] in *. subst r.
+    destruct (tr (ideal x)); cbn [fst snd]; split; auto.
+  - exact (compound_good l (fun vs => VMap [(variant_key, VSeq false vs)]) H st H0).
+  - exact (compound_good l (fun vs => VMap [(variant_key, VMap (with_keys vs))]) H st H0).
+  - (* NSome *) rewrite ser_node_some. exact (transform_good x H st H0).
+  - (* NNested *) rewrite ser_node_nested. cbn [ideal]. destruct (convert_good x H st) as [H1 H2]. rewrite H0 in H2.
+    destruct (convert x st) as [r st']. cbn [fst snd] in *. subst r.
+    destruct (tr (ideal x)); cbn [fst snd]; try (split; auto; fail).
+    destruct (ser_value_flagged a st' H2) as [H3 H4]. destruct (ser_value a st') as [v' st'']. cbn [fst snd] in *.
+    subst. split; [reflexivity | assumption].
+  - (* NNestedDrop *) rewrite ser_node_drop. cbn [ideal]. destruct (convert_good x H st) as [H1 H2]. rewrite H0 in H2.
+    destruct (convert x st) as [r st']. cbn [fst snd] in *. subst r.
+    destruct (tr (ideal x)); cbn [fst snd]; split; auto.
+  - (* NNestedCatch *) rewrite ser_node_catch. cbn [ideal]. destruct (convert_good x H st) as [H1 H2]. rewrite H0 in H2.
+    destruct (convert x st) as [r st']. cbn [fst snd] in *. subst r.
+    destruct (tr (ideal x)); cbn [fst snd]; try (split; auto; fail).
+    destruct (ser_value_flagged a st' H2) as [H3 H4]. destruct (ser_value a st') as [v' st'']. cbn [fst snd] in *.
+    subst. split; [reflexivity | assumption].
+  - (* NThread *) rewrite ser_node_thread. cbn [ideal]. destruct (convert_good x H fresh_thread) as [H1 _]. rewrite H1.
+    destruct (tr (ideal x)); cbn [fst snd]; try (split; auto; fail).
+    destruct (ser_value_flagged a st H0) as [H3 H4]. destruct (ser_value a st) as [v' st'']. cbn [fst snd] in *.
+    subst. split; [reflexivity | assumption].
+  - split; [reflexivity | exact H].
+  - split; [reflexivity | exact H].
+  - (* NNil *) split; [reflexivity | exact H].
+  - (* NCons *) rewrite ser_nodes_cons. cbn [ideals]. destruct (H st H1) as [H2 H3].
+    destruct (ser_node x st) as [r1 st']. cbn [fst snd] in *. subst r1.
+    destruct (ideal x) as [v| |]; cbn [fst snd]; try (split; auto; fail).
+    + destruct (H0 st' H3) as [H4 H5]. destruct (ser_nodes r st') as [r2 st'']. cbn [fst snd] in *. subst r2.
+      destruct (ideals r); cbn [fst snd]; split; auto.
+    + destruct (H0 st' H3) as [H4 H5]. destruct (ser_nodes r st') as [r2 st'']. cbn [fst snd] in *. subst r2.
+      destruct (ideals r); cbn [fst snd]; split; auto.
+Qed.
+
+(* Value::from(Serde(y)), entered with the flag set (nested) or clear (outermost): the ideal value,
+   and the flag is left as it was found *)
+Theorem reentrancy_transparent_proof : forall y st,
+  fst (convert y st) = ideal_convert y /\ flag (snd (convert y st)) = flag st.
+Proof. intros y st. apply convert_good. apply reentrancy_all. Qed.
